@@ -30,8 +30,15 @@ fn tracking() -> bool {
     TRACK.try_with(|t| t.get()).unwrap_or(false)
 }
 
+const SIM_MEMORY: usize = 1 << 40;
+
 unsafe impl GlobalAlloc for SimAlloc {
     unsafe fn alloc(&self, layout: Layout) -> *mut u8 {
+        // The simulated machine has less than 1 TiB: a larger request fails the same way in every
+        // tier (natively the address-space limit would refuse it, Miri would abort the interpreter).
+        if layout.size() > SIM_MEMORY {
+            return std::ptr::null_mut();
+        }
         if tracking() {
             let armed = REFUSE_ARMED.with(|a| a.get());
             let min_align = REFUSE_MIN_ALIGN.with(|a| a.get());
@@ -70,6 +77,9 @@ unsafe impl GlobalAlloc for SimAlloc {
     }
 
     unsafe fn realloc(&self, ptr: *mut u8, layout: Layout, new_size: usize) -> *mut u8 {
+        if new_size > SIM_MEMORY {
+            return std::ptr::null_mut();
+        }
         let p = System.realloc(ptr, layout, new_size);
         if !p.is_null() && tracking() {
             LIVE_BYTES.with(|c| c.set(c.get() + new_size as isize - layout.size() as isize));
